@@ -12,8 +12,17 @@ pub const KMAX: usize = 4;
 pub const INLINE: usize = 2 * std::mem::size_of::<usize>();
 pub const LMAX: usize = 4 * INLINE;
 pub const ALLOC_MSG: &str = "Cannot allocate memory to hold LeanString";
-pub const HUGE_LIMIT: usize = 1 << 60; // rejected by the crate's own length limit
-pub const HUGE_ALLOC: usize = 1 << 40; // passes the limit, refused by the shim (giant threshold)
+/// rejected before any allocation: above the crate's 56-bit length limit on 64-bit targets,
+/// above isize::MAX (no valid Layout) on 32-bit targets
+#[cfg(target_pointer_width = "64")]
+pub const HUGE_LIMIT: usize = 1 << 60;
+#[cfg(not(target_pointer_width = "64"))]
+pub const HUGE_LIMIT: usize = usize::MAX / 2 + 4096;
+/// passes every limit, refused by the shim (giant threshold)
+#[cfg(target_pointer_width = "64")]
+pub const HUGE_ALLOC: usize = 1 << 40;
+#[cfg(not(target_pointer_width = "64"))]
+pub const HUGE_ALLOC: usize = 1 << 30;
 
 const SENT: u8 = 0x5A;
 const ASCII: &str = "0123456789abcdefghijklmnopqrstuvwxyzABCDEFGHIJKLMNOPQRSTUVWXYZ0123456789abcdefghijklmnopqrstuvwxyz";
